@@ -130,10 +130,14 @@ func c15MakeConv(prefixed bool) (ns *c15J, conv c15Conv) {
 	if !prefixed {
 		return ns, func(u string) string { return u }
 	}
-	ns.set("_", c15Raw(gen.NsA)).set("pp", c15Raw(gen.NsP)).set("rr", c15Raw(gen.NsR)).set("ss", c15Raw(c15NsS))
+	ns.set("_", c15Raw(gen.NsA)).set("pp", c15Raw(gen.NsP)).set("rr", c15Raw(gen.NsR)).set("ss", c15Raw(c15NsS)).set("aa", c15Raw(gen.NsA))
 	return ns, func(u string) string {
 		switch {
 		case strings.HasPrefix(u, gen.NsA):
+			if l := u[len(gen.NsA):]; strings.Contains(l, ":") {
+				// a bare name with a colon would read as prefix:name; such a name needs an explicit prefix
+				return "aa:" + l
+			}
 			return u[len(gen.NsA):]
 		case strings.HasPrefix(u, gen.NsP):
 			return "pp:" + u[len(gen.NsP):]
@@ -157,10 +161,13 @@ func c15SortedKeys(m map[string]any) []string {
 
 // c15EntJ renders an entity; the order of the keys id/recorded/deleted/props/refs
 // is drawn from r (the grammar does not fix an order). r == nil: canonical order.
-func c15EntJ(e model.Ent, conv c15Conv, r *rand.Rand) *c15J {
+// om != nil: the key-omission dimension: "props" / "refs" are optional keys, an entity
+// (top-level or nested) without properties / references may leave the key out altogether
+// (a bare tombstone {"id":..,"deleted":true}, a nested entity with props only, ...).
+func c15EntJ(e model.Ent, conv c15Conv, r *rand.Rand, om *rand.Rand) *c15J {
 	props := c15Obj()
 	for _, k := range c15SortedKeys(e.Props) {
-		props.add(conv(k), c15ValJ(e.Props[k], conv, r))
+		props.add(conv(k), c15ValJ(e.Props[k], conv, r, om))
 	}
 	refs := c15Obj()
 	for _, k := range c15SortedKeys(e.Refs) {
@@ -175,7 +182,13 @@ func c15EntJ(e model.Ent, conv c15Conv, r *rand.Rand) *c15J {
 			refs.add(conv(k), a)
 		}
 	}
-	parts := []string{"id", "props", "refs"}
+	parts := []string{"id"}
+	if !(om != nil && len(e.Props) == 0 && om.Intn(3) != 0) {
+		parts = append(parts, "props")
+	}
+	if !(om != nil && len(e.Refs) == 0 && om.Intn(3) != 0) {
+		parts = append(parts, "refs")
+	}
 	if e.Deleted || (r != nil && r.Intn(6) == 0) {
 		parts = append(parts, "deleted")
 	}
@@ -203,7 +216,7 @@ func c15EntJ(e model.Ent, conv c15Conv, r *rand.Rand) *c15J {
 	return o
 }
 
-func c15ValJ(v any, conv c15Conv, r *rand.Rand) *c15J {
+func c15ValJ(v any, conv c15Conv, r *rand.Rand, om *rand.Rand) *c15J {
 	switch t := v.(type) {
 	case map[string]any:
 		if id, ok := t["id"].(string); ok {
@@ -214,13 +227,13 @@ func c15ValJ(v any, conv c15Conv, r *rand.Rand) *c15J {
 			if p, ok := t["refs"].(map[string]any); ok {
 				ne.Refs = p
 			}
-			return c15EntJ(ne, conv, nil)
+			return c15EntJ(ne, conv, nil, om)
 		}
 		return c15Raw(t)
 	case []any:
 		a := c15Arr()
 		for _, x := range t {
-			a.Vals = append(a.Vals, c15ValJ(x, conv, r))
+			a.Vals = append(a.Vals, c15ValJ(x, conv, r, om))
 		}
 		return a
 	}
@@ -234,6 +247,9 @@ type C15Doc struct {
 	Txn      map[string][]model.Ent `json:"txn,omitempty"`
 	Prefixed bool                   `json:"prefixed"`
 	OSeed    int64                  `json:"oseed"` // key-order seed
+	// Omit: empty "props" / "refs" objects are left out (two times out of three, per
+	// entity and key, drawn from OSeed) instead of being written as {}
+	Omit bool `json:"omit,omitempty"`
 }
 
 // c15Build returns the ordered tree of the valid document.
@@ -241,6 +257,10 @@ type C15Doc struct {
 func c15Build(d C15Doc) *c15J {
 	ns, conv := c15MakeConv(d.Prefixed)
 	r := rand.New(rand.NewSource(d.OSeed))
+	var om *rand.Rand
+	if d.Omit {
+		om = rand.New(rand.NewSource(d.OSeed ^ 0x5eed))
+	}
 	if d.Kind == "txn" {
 		o := c15Obj()
 		o.add("@context", c15Obj().set("namespaces", ns))
@@ -252,7 +272,7 @@ func c15Build(d C15Doc) *c15J {
 		for _, n := range names {
 			a := c15Arr()
 			for _, e := range d.Txn[n] {
-				a.Vals = append(a.Vals, c15EntJ(e, conv, r))
+				a.Vals = append(a.Vals, c15EntJ(e, conv, r, om))
 			}
 			o.add(n, a)
 		}
@@ -261,13 +281,133 @@ func c15Build(d C15Doc) *c15J {
 	ctx := c15Obj().set("id", c15Raw("@context")).set("namespaces", ns)
 	a := c15Arr(ctx)
 	for _, e := range d.Ents {
-		a.Vals = append(a.Vals, c15EntJ(e, conv, r))
+		a.Vals = append(a.Vals, c15EntJ(e, conv, r, om))
 	}
 	return a
 }
 
+// ---------- identifier shapes
+//
+// An identifier (entity id, reference value, property / reference key) is a URI, written
+// either absolutely or as prefix:local (or as a bare local name under the default prefix);
+// prefix:local denotes <expansion of prefix> + local, where local is EVERYTHING after the
+// first colon. The local part is not restricted to [a-z0-9]: the shapes below put the
+// characters ':', '/', '#', '%', non-ASCII letters and sub-delimiters into it.
+
+type c15ShapeT struct {
+	Name      string
+	Pre, Post string
+	NoHashNs  bool // not for a namespace that ends in '#'
+}
+
+var c15ShapeTemplates = []c15ShapeT{
+	{"colon", "grp:", "", false},          // o:order:1001 — several names share the text before the second colon
+	{"colon-tail", "", ":1001:x", false},  // two colons after the name
+	{"slash", "a/b/", "", false},          // path-like local part
+	{"hash", "doc#", "", true},            // fragment inside a slash namespace
+	{"percent", "100%25", "%20x", false},  // percent signs are data, nobody decodes them
+	{"unicode", "æ", "日本", false},        // non-ASCII
+	{"punct", "~", ".v2;k=1@x", false},    // unreserved / sub-delims
+}
+
+var c15KnownNs = []string{gen.NsA, gen.NsP, gen.NsR, c15NsS}
+
+type c15Shaper struct {
+	r *rand.Rand
+	m map[string]string
+}
+
+func (sh *c15Shaper) uri(u string) string {
+	if sh == nil {
+		return u
+	}
+	if v, ok := sh.m[u]; ok {
+		return v
+	}
+	out := u
+	for _, ns := range c15KnownNs {
+		if !strings.HasPrefix(u, ns) {
+			continue
+		}
+		if sh.r.Intn(2) == 0 {
+			break // this name keeps its plain shape
+		}
+		t := c15ShapeTemplates[sh.r.Intn(len(c15ShapeTemplates))]
+		if t.NoHashNs && strings.HasSuffix(ns, "#") {
+			t = c15ShapeTemplates[0]
+		}
+		out = ns + t.Pre + u[len(ns):] + t.Post
+		break
+	}
+	sh.m[u] = out
+	return out
+}
+
+func (sh *c15Shaper) refs(m map[string]any) map[string]any {
+	out := map[string]any{}
+	for k, v := range m {
+		switch t := v.(type) {
+		case string:
+			out[sh.uri(k)] = sh.uri(t)
+		case []any:
+			a := make([]any, len(t))
+			for i, x := range t {
+				if s, ok := x.(string); ok {
+					a[i] = sh.uri(s)
+				} else {
+					a[i] = x
+				}
+			}
+			out[sh.uri(k)] = a
+		default:
+			out[sh.uri(k)] = v
+		}
+	}
+	return out
+}
+
+func (sh *c15Shaper) val(v any) any {
+	switch t := v.(type) {
+	case map[string]any:
+		if id, ok := t["id"].(string); ok {
+			ne := map[string]any{"id": sh.uri(id), "props": map[string]any{}, "refs": map[string]any{}}
+			if p, ok := t["props"].(map[string]any); ok {
+				ne["props"] = sh.props(p)
+			}
+			if p, ok := t["refs"].(map[string]any); ok {
+				ne["refs"] = sh.refs(p)
+			}
+			return ne
+		}
+		return t
+	case []any:
+		a := make([]any, len(t))
+		for i, x := range t {
+			a[i] = sh.val(x)
+		}
+		return a
+	}
+	return v
+}
+
+func (sh *c15Shaper) props(m map[string]any) map[string]any {
+	out := map[string]any{}
+	for k, v := range m {
+		out[sh.uri(k)] = sh.val(v)
+	}
+	return out
+}
+
+func (sh *c15Shaper) ent(e model.Ent) model.Ent {
+	if sh == nil {
+		return e
+	}
+	return model.Ent{ID: sh.uri(e.ID), Props: sh.props(e.Props), Refs: sh.refs(e.Refs), Deleted: e.Deleted}
+}
+
 // c15GenEnts draws n entities (distinct ids unless repeats are asked for).
-func c15GenEnts(r *rand.Rand, v *gen.Vocab, n int) []model.Ent {
+// sh != nil: identifiers are re-shaped (consistently within the case).
+func c15GenEnts(r *rand.Rand, v *gen.Vocab, n int, sh *c15Shaper) []model.Ent {
 	var ents []model.Ent
 	for i := 0; i < n; i++ {
 		id := v.IDs[r.Intn(len(v.IDs))]
@@ -278,9 +418,122 @@ func c15GenEnts(r *rand.Rand, v *gen.Vocab, n int) []model.Ent {
 		if r.Intn(10) == 0 { // a reference into the https namespace
 			e.Refs[v.Preds[0]] = c15NsS + "t0"
 		}
-		ents = append(ents, model.NormEnt(e))
+		switch r.Intn(12) {
+		case 0: // a nested entity that has references but no properties
+			e.Props[v.Props[r.Intn(len(v.Props))]] = map[string]any{"id": v.IDs[r.Intn(len(v.IDs))] + "-sub",
+				"props": map[string]any{}, "refs": map[string]any{v.Preds[r.Intn(len(v.Preds))]: v.IDs[r.Intn(len(v.IDs))]}}
+		case 1: // a nested entity that is nothing but an id (also inside an array)
+			ne := map[string]any{"id": v.IDs[r.Intn(len(v.IDs))] + "-sub", "props": map[string]any{}, "refs": map[string]any{}}
+			if r.Intn(2) == 0 {
+				e.Props[v.Props[r.Intn(len(v.Props))]] = ne
+			} else {
+				e.Props[v.Props[r.Intn(len(v.Props))]] = []any{"x", ne}
+			}
+		}
+		ents = append(ents, model.NormEnt(sh.ent(e)))
 	}
 	return ents
+}
+
+// c15IDShapes names the identifier shapes present in the entities (for tags / counters).
+func c15IDShapes(ents []model.Ent) map[string]bool {
+	out := map[string]bool{}
+	see := func(u string) {
+		for _, ns := range c15KnownNs {
+			if !strings.HasPrefix(u, ns) {
+				continue
+			}
+			l := u[len(ns):]
+			for _, c := range []struct{ ch, name string }{{":", "colon"}, {"/", "slash"}, {"#", "hash"}, {"%", "percent"}, {"æ", "unicode"}, {"~", "punct"}} {
+				if strings.Contains(l, c.ch) {
+					out[c.name] = true
+				}
+			}
+			return
+		}
+	}
+	var walkV func(v any)
+	var walkRefs func(m map[string]any)
+	walkRefs = func(m map[string]any) {
+		for k, v := range m {
+			see(k)
+			switch t := v.(type) {
+			case string:
+				see(t)
+			case []any:
+				for _, x := range t {
+					if s, ok := x.(string); ok {
+						see(s)
+					}
+				}
+			}
+		}
+	}
+	walkV = func(v any) {
+		switch t := v.(type) {
+		case map[string]any:
+			if id, ok := t["id"].(string); ok {
+				see(id)
+				if p, ok := t["props"].(map[string]any); ok {
+					for k, x := range p {
+						see(k)
+						walkV(x)
+					}
+				}
+				if p, ok := t["refs"].(map[string]any); ok {
+					walkRefs(p)
+				}
+			}
+		case []any:
+			for _, x := range t {
+				walkV(x)
+			}
+		}
+	}
+	for _, e := range ents {
+		see(e.ID)
+		for k, v := range e.Props {
+			see(k)
+			walkV(v)
+		}
+		walkRefs(e.Refs)
+	}
+	return out
+}
+
+// c15HasOmittable: some entity (top-level or nested) has no properties or no references,
+// i.e. the key-omission dimension has something to omit.
+func c15HasOmittable(ents []model.Ent) bool {
+	found := false
+	var walkV func(v any)
+	walkV = func(v any) {
+		switch t := v.(type) {
+		case map[string]any:
+			if _, ok := t["id"].(string); ok {
+				p, _ := t["props"].(map[string]any)
+				rf, _ := t["refs"].(map[string]any)
+				if len(p) == 0 || len(rf) == 0 {
+					found = true
+				}
+				for _, x := range p {
+					walkV(x)
+				}
+			}
+		case []any:
+			for _, x := range t {
+				walkV(x)
+			}
+		}
+	}
+	for _, e := range ents {
+		if len(e.Props) == 0 || len(e.Refs) == 0 {
+			found = true
+		}
+		for _, v := range e.Props {
+			walkV(v)
+		}
+	}
+	return found
 }
 
 func c15HasShape(ents []model.Ent) (nested, arrays bool) {
